@@ -2,6 +2,7 @@ import Dbg.Lemmas.KmerOrder
 import Dbg.Lemmas.KmerRc
 import Dbg.Lemmas.KmerExtend
 import Dbg.Lemmas.KmerSlice
+import Dbg.Props.C10
 /-! # C11 — K-mer equality, order and hash are those of the string
 
 `==`, `cmp` and `Hash` of both k-mer structs are `#[derive]`d on the `storage` integer (and a
@@ -86,6 +87,23 @@ theorem C11_routes_agree (c : Cfg) (hc : c.WF) (hw : c.w ∈ [8, 16, 32, 64, 128
   obtain ⟨i1, e1⟩ := C11_history c hc hw ops₁ s₁ h₁ r₁
   obtain ⟨i2, e2⟩ := C11_history c hc hw ops₂ s₂ h₂ r₂
   exact toSeq_inj hc _ _ i1 i2 (by rw [e1, e2, h])
+
+/-- **C11 (constructors).** `from_bytes`, `from_u64` and `from_ascii` all establish the invariant, so whichever of
+    them starts a history, two routes to the same string end in the same storage word (with `C11_routes_agree`);
+    in particular `from_u64(rank s) == from_bytes(s) == from_ascii(text s)`. -/
+theorem C11_constructors (c : Cfg) (hc : c.WF) (bytes : List Nat) (hl : bytes.length = c.K) (hb : ∀ b ∈ bytes, b < 4) :
+    ∃ s, fromBytes c bytes = some s ∧ Inv c s ∧ toSeq c s = bytes ∧
+      (∀ v, v < 4 ^ c.K → KSpec.digits4 c.K v = bytes → fromU64 c v = some s) ∧
+      (∀ txt : List Nat, txt.length = c.K → txt.map baseToBits = bytes → fromAscii c txt = some s) := by
+  obtain ⟨s, e, t, i⟩ := C10_fromBytes c hc bytes (by omega) hb
+  have ht : toSeq c s = bytes := by rw [t, ← hl, List.take_length]
+  refine ⟨s, e, i, ht, ?_, ?_⟩
+  · intro v hv hd
+    obtain ⟨s', e', t', i'⟩ := C10_fromU64 c hc v hv
+    rw [e', toSeq_inj hc s' s i' i (by rw [t', hd, ht])]
+  · intro txt hl' hm
+    obtain ⟨s', e', t', i'⟩ := C10_fromAscii c hc txt (by omega)
+    rw [e', toSeq_inj hc s' s i' i (by rw [t', ← hl', List.take_length, hm, ht])]
 
 example : (Op.set 3 2).InRange 5 := ⟨by decide, by decide⟩
 
